@@ -129,7 +129,7 @@ def run_case(case):
                             break
                     # QUEUE_FULL is a definite refusal that a tiny commandsQueueSize allows whenever another command
                     # arrived between two ticks: a client retries; a queue that is never drained still fails 4 times.
-                    # MISSING_LEADER / NOT_LEADER / LEADER_CHANGED: the leader found at the start of the quiet phase may
+                    # MISSING_LEADER / NOT_LEADER / LEADER_CHANGED / DISCARDED (the entry lost its position to a new leader's): the leader found at the start of the quiet phase may
                     # still step down once because of the silence *before* the faults stopped (leaderFallbackTimeout);
                     # a client retries after the next election; leadership that keeps changing still fails 4 times.
                     codes = [e for _, e, _ in sub['cbs']]
@@ -137,7 +137,7 @@ def run_case(case):
                         for _ in range(5):
                             sim.calm_round()
                         continue
-                    if codes and codes[0] in (2, 4, 5):
+                    if codes and codes[0] in (2, 3, 4, 5):
                         def one_leader():
                             ls = [x for x in comp if sim.nodes[x]._isLeader()]
                             return len(ls) == 1 and all(sim.nodes[x]._getLeader() == sim.node_obj(ls[0]) for x in comp)
